@@ -45,15 +45,18 @@ func (dv *defaultVerifierPipeline) worker(ctx context.Context, wg *sync.WaitGrou
 		case <-ctx.Done():
 			return
 		case root, ok := <-roots:
+			verifPoint("verify.recv")
 			if !ok {
 				return
 			}
 			extra, noExists, err := dv.verifyRoot(root)
 			if err != nil {
+				verifPoint("verify.err")
 				errc <- err
 			}
 			// TODO: 1Root分のエラーしか出力しないようになってるから、全Root分の検査結果を出力する方がいいかも
 			if err := dv.handleErr(extra, noExists); err != nil {
+				verifPoint("verify.err")
 				errc <- err
 			}
 		}
